@@ -34,6 +34,11 @@ type Event struct {
 	PCFrom  int // atoms [PCFrom, PCTo) were added while the op's closure ran
 	PCTo    int
 	Pos     string
+	// go events: the function the new goroutine runs, the terms of its arguments / captured cells, the statement
+	Fn    *ssa.Function
+	Bind  []*Term
+	Instr ssa.Instruction
+	Mem   map[int]*Term // memory at the go statement
 }
 
 // State is the per-path interpreter state.
@@ -96,6 +101,7 @@ type Path struct {
 	Problems []string
 	Panic    bool // the path ends in an explicit panic
 	PanicPos string
+	Mem      map[int]*Term // memory at the end of the path
 }
 
 // Interp evaluates cache-layer functions.
@@ -110,6 +116,12 @@ type Interp struct {
 	panics    []Path
 	paths     int
 	Overflow  bool
+	// Goroutine mode (the body of a background goroutine is evaluated): channel receives and selects are events (a
+	// select forks the path, one per case), tickers are terms, calls of opaque functions are events, and a path cut off
+	// at the loop bound is kept as a partial path (Cut) instead of being dropped.
+	Goroutine bool
+	Cut       []Path
+	Entered   map[*ssa.Function]bool
 }
 
 type frame struct {
@@ -152,7 +164,7 @@ func (it *Interp) Run(fn *ssa.Function) []Path {
 			it.Overflow = true
 			return
 		}
-		out = append(out, Path{PC: s.PC, Events: s.Events, Ret: rets, Problems: s.Problems})
+		out = append(out, Path{PC: s.PC, Events: s.Events, Ret: rets, Problems: s.Problems, Mem: s.Mem})
 	})
 	// explicit panics. A panic taken exactly because a function-typed argument is nil is argument validation: calls
 	// with a nil function are outside every property's quantifier (they cannot do what the method promises), so such a
@@ -226,6 +238,9 @@ func (it *Interp) call(fn *ssa.Function, args []*Term, bind []*Term, st *State, 
 		k(st, nil)
 		return
 	}
+	if it.Entered != nil {
+		it.Entered[fn] = true
+	}
 	fr := &frame{fn: fn, env: map[ssa.Value]*Term{}, visits: map[*ssa.BasicBlock]int{}, bind: bind, depth: depth}
 	for i, p := range fn.Params {
 		if i < len(args) {
@@ -256,6 +271,7 @@ func (it *Interp) block(fr *frame, b, prev *ssa.BasicBlock, st *State, k cont) {
 	}
 	over := fr.visits[b] >= limit
 	if over && fr.visits[b] >= 12 {
+		it.cut(st)
 		return
 	}
 	fr.visits[b]++
@@ -312,10 +328,40 @@ func (it *Interp) block(fr *frame, b, prev *ssa.BasicBlock, st *State, k cont) {
 			}
 		}
 		if !concrete {
+			it.cut(st)
 			return
 		}
 	}
 	it.instrs(fr, b, i, st, k)
+}
+
+func (it *Interp) cut(st *State) {
+	if it.Goroutine && len(it.Cut) < 4000 {
+		it.Cut = append(it.Cut, Path{PC: append([]Atom(nil), st.PC...), Events: append([]Event(nil), st.Events...), Problems: st.Problems})
+	}
+}
+
+// RunWith evaluates fn with the given argument / captured-cell terms (a goroutine started by a path of another
+// function: the terms are that path's).
+func (it *Interp) RunWith(fn *ssa.Function, args, bind []*Term, mem map[int]*Term) []Path {
+	var out []Path
+	st := newState()
+	for k, v := range mem {
+		st.Mem[k] = v
+	}
+	st.nCell = len(mem) + 1000
+	it.paths = 0
+	it.call(fn, args, bind, st, 0, func(s *State, rets []*Term) {
+		it.paths++
+		if it.MaxPaths > 0 && it.paths > it.MaxPaths {
+			it.Overflow = true
+			return
+		}
+		out = append(out, Path{PC: s.PC, Events: s.Events, Ret: rets, Problems: s.Problems, Mem: s.Mem})
+	})
+	out = append(out, it.panics...)
+	it.panics = nil
+	return out
 }
 
 // val is the term of an SSA value at the current point of the path: a boolean term whose truth the path condition
@@ -571,7 +617,60 @@ func (it *Interp) instrs(fr *frame, b *ssa.BasicBlock, i int, st *State, k cont)
 			})
 			return
 		case *ssa.Go:
-			st.Events = append(st.Events, Event{Kind: "go", Pos: it.P.InstrPos(in)})
+			ev := Event{Kind: "go", Pos: it.P.InstrPos(in), Instr: in, PCTo: len(st.PC)}
+			for _, a := range x.Call.Args {
+				ev.Args = append(ev.Args, it.val(fr, a, st))
+			}
+			if _, isMC := x.Call.Value.(*ssa.MakeClosure); !isMC && core.Callee(x) != nil {
+				ev.Fn = core.Callee(x)
+			} else if !x.Call.IsInvoke() && x.Call.Value != nil {
+				if fv := it.val(fr, x.Call.Value, st); fv != nil && fv.Op == "closure" {
+					ev.Fn, _ = fv.Fn.(*ssa.Function)
+					ev.Bind = fv.Bind
+				}
+			}
+			ev.Mem = make(map[int]*Term, len(st.Mem))
+			for mk, mv := range st.Mem {
+				ev.Mem[mk] = mv
+			}
+			st.Events = append(st.Events, ev)
+		case *ssa.Select:
+			if !it.Goroutine {
+				st.Problems = append(st.Problems, "select outside a goroutine body at "+it.P.InstrPos(in))
+				fr.env[x] = Leaf("undef", x.Name())
+				continue
+			}
+			// one path per case (and one for default when the select does not block)
+			next := i + 1
+			n := len(x.States)
+			for ci := -1; ci < n; ci++ {
+				if ci == -1 && x.Blocking {
+					continue
+				}
+				st2 := st.clone()
+				fr2 := fr.clone()
+				tup := []*Term{Int(int64(ci)), Bool(true)}
+				if ci >= 0 {
+					ch := it.val(fr2, x.States[ci].Chan, st2)
+					kind := "recv"
+					if x.States[ci].Dir == types.SendOnly {
+						kind = "send"
+					}
+					st2.nCall++
+					st2.Events = append(st2.Events, Event{Kind: kind, N: ci, Key: ch, Pos: it.P.InstrPos(in)})
+				} else {
+					st2.Events = append(st2.Events, Event{Kind: "selectdefault", Pos: it.P.InstrPos(in)})
+				}
+				for ri, sc := range x.States {
+					if sc.Dir == types.RecvOnly {
+						st2.nCall++
+						tup = append(tup, Leaf("recvd", fmt.Sprintf("%d#%d", ri, st2.nCall)))
+					}
+				}
+				fr2.env[x] = &Term{Op: "tuple", Args: tup}
+				it.instrs(fr2, b, next, st2, k)
+			}
+			return
 		case *ssa.Defer:
 			// arguments are evaluated now, the call runs at the function's RunDefers
 			for _, a := range x.Call.Args {
@@ -690,6 +789,14 @@ func (it *Interp) eval(fr *frame, v ssa.Value, st *State) *Term {
 	case *ssa.UnOp:
 		a := it.val(fr, x.X, st)
 		switch x.Op {
+		case token.ARROW:
+			st.nCall++
+			st.Events = append(st.Events, Event{Kind: "recv", N: -1, Key: a, Pos: it.P.InstrPos(x)})
+			r := Leaf("recvd", fmt.Sprintf("u#%d", st.nCall))
+			if x.CommaOk {
+				return &Term{Op: "tuple", Args: []*Term{r, Leaf("recvok", fmt.Sprint(st.nCall))}}
+			}
+			return r
 		case token.MUL:
 			return it.load(a, st)
 		case token.NOT:
@@ -819,6 +926,9 @@ func (it *Interp) doCall(fr *frame, c ssa.CallInstruction, st *State, k cont) {
 	if cc.IsInvoke() {
 		st.nCall++
 		recv := it.val(fr, cc.Value, st)
+		if it.Goroutine {
+			st.Events = append(st.Events, Event{Kind: "icall", Name: cc.Method.Name(), Args: append([]*Term{recv}, args...), Pos: pos})
+		}
 		k(st, []*Term{&Term{Op: "icall", K: fmt.Sprintf("%s#%d", cc.Method.Name(), st.nCall), Args: append([]*Term{recv}, args...)}})
 		return
 	}
@@ -832,7 +942,14 @@ func (it *Interp) doCall(fr *frame, c ssa.CallInstruction, st *State, k cont) {
 	if cal := core.Callee(c); cal != nil {
 		if name, ok := it.Opaque[cal]; ok {
 			st.nCall++
-			k(st, []*Term{&Term{Op: "opq", K: fmt.Sprintf("%s#%d", name, st.nCall), Args: args[1:]}})
+			if it.Goroutine {
+				st.Events = append(st.Events, Event{Kind: "opqcall", Name: name, Args: args, Pos: pos, Fn: cal})
+			}
+			var rest []*Term
+			if len(args) > 0 {
+				rest = args[1:]
+			}
+			k(st, []*Term{&Term{Op: "opq", K: fmt.Sprintf("%s#%d", name, st.nCall), Args: rest}})
 			return
 		}
 		if cal.Pkg == it.P.Cache && cal.Blocks != nil {
@@ -909,6 +1026,17 @@ func (it *Interp) external(cal *ssa.Function, args []*Term, st *State, pos strin
 		k(st, []*Term{Mk("sub", "", args[0], args[1])})
 	case "(time.Time).After":
 		k(st, []*Term{Mk("cmp", ">", Mk("unixnano", "", args[0]), Mk("unixnano", "", args[1]))})
+	case "time.NewTicker", "time.NewTimer", "time.Tick", "time.After":
+		st.nCall++
+		st.Events = append(st.Events, Event{Kind: "ticker", Name: id, Args: args, Pos: pos})
+		k(st, []*Term{Mk("ticker", fmt.Sprintf("%s#%d", id, st.nCall), args[0])})
+	case "(*time.Ticker).Stop", "(*time.Timer).Stop", "(*time.Ticker).Reset", "(*time.Timer).Reset":
+		if id[len(id)-4:] == "Stop" {
+			k(st, []*Term{Leaf("void", "")})
+		} else {
+			st.Events = append(st.Events, Event{Kind: "tickerreset", Name: id, Args: args, Pos: pos})
+			k(st, []*Term{Leaf("void", "")})
+		}
 	case "(time.Time).Before":
 		k(st, []*Term{Mk("cmp", ">", Mk("unixnano", "", args[1]), Mk("unixnano", "", args[0]))})
 	default:
@@ -1017,7 +1145,14 @@ func (it *Interp) externalUnknown(id string, cal *ssa.Function, args []*Term, st
 	}
 	{
 		st.nCall++
-		st.Events = append(st.Events, Event{Kind: "extcall", N: st.nCall, Name: id, Args: args, Pos: pos})
+		ev := Event{Kind: "extcall", N: st.nCall, Name: id, Args: args, Pos: pos}
+		if id == "runtime.SetFinalizer" {
+			ev.Mem = make(map[int]*Term, len(st.Mem))
+			for mk, mv := range st.Mem {
+				ev.Mem[mk] = mv
+			}
+		}
+		st.Events = append(st.Events, ev)
 		st.Problems = append(st.Problems, "call of unmodelled function "+id+" at "+pos)
 		var rets []*Term
 		n := cal.Signature.Results().Len()
